@@ -2,7 +2,9 @@ package main
 
 import (
 	"bufio"
+	"crypto/rand"
 	"crypto/sha256"
+	"errors"
 	"fmt"
 	"hash/fnv"
 	"os"
@@ -14,7 +16,7 @@ import (
 	"github.com/bytemare/secp256k1/internal/scalar"
 )
 
-func fe(l limbs) *field.Element { return &field.Element{E: field.MontgomeryDomainFieldElement(l)} }
+func fe(l limbs) *field.Element  { return &field.Element{E: field.MontgomeryDomainFieldElement(l)} }
 func feL(e *field.Element) limbs { return limbs(e.E) }
 
 func rv(e *field.Element) string { return join(kv("r", showL(feL(e))), kv("v", showB(e.Bytes()))) }
@@ -30,12 +32,12 @@ func scOpt(s string) *secp.Scalar {
 	}
 	return sc(parseL(s))
 }
-func rvN(s *secp.Scalar) string { return join(kv("r", showL(limbs(s.S))), kv("v", showB(s.Encode()))) }
+func rvN(s *secp.Scalar) string                          { return join(kv("r", showL(limbs(s.S))), kv("v", showB(s.Encode()))) }
 func rvNm(m *scalar.MontgomeryDomainFieldElement) string { return rvN(sc(limbs(*m))) }
 
-func el(p rawPt) *secp.Element { return secp.VerifSetRaw(secp.NewElement(), [3][4]uint64(p)) }
+func el(p rawPt) *secp.Element    { return secp.VerifSetRaw(secp.NewElement(), [3][4]uint64(p)) }
 func elRaw(e *secp.Element) rawPt { return rawPt(secp.VerifRaw(e)) }
-func parseP(a []string) rawPt   { return rawPt{parseL(a[0]), parseL(a[1]), parseL(a[2])} }
+func parseP(a []string) rawPt     { return rawPt{parseL(a[0]), parseL(a[1]), parseL(a[2])} }
 func ptOut(e *secp.Element) string {
 	return join(kv("r", showP(elRaw(e))), kv("c", showB(e.Encode())))
 }
@@ -498,9 +500,6 @@ func execLine(h *hist, line string) (out string) {
 	case "PT.map":
 		r := secp.IsogenySecp256k13iso(secp.SSWU(fe(parseL(a[0]))))
 		return join(ptOut(r), kv("u", showB(r.EncodeUncompressed())))
-	case "PT.h2g":
-		q0, q1 := secp.SSWU(fe(parseL(a[0]))), secp.SSWU(fe(parseL(a[1])))
-		return ptOut(secp.IsogenySecp256k13iso(secp.VerifAddAffine3Iso2(q0, q1)))
 	// ---------------- decoders ----------------
 	case "DEC.any", "DEC.unmarshal", "DEC.comp", "DEC.uncomp", "DEC.hex":
 		r := el(parseP(a))
@@ -553,6 +552,25 @@ func execLine(h *hist, line string) (out string) {
 			return kv("panic", "expander-override-not-used")
 		}
 		return res
+	case "RND":
+		// scripted entropy: a[0] = all bytes the source will deliver, a[1] = chunk size of each Read
+		data := parseB(a[0])
+		chunk, _ := strconv.Atoi(a[1])
+		rd := &scriptReader{data: data, chunk: chunk}
+		old := rand.Reader
+		rand.Reader = rd
+		defer func() { rand.Reader = old }()
+		var res string
+		func() {
+			defer func() {
+				if r := recover(); r != nil {
+					res = join(kv("panic", "1"), kv("used", strconv.Itoa(rd.pos)))
+				}
+			}()
+			s := sc(limbs{5, 6, 7, 8}).Random()
+			res = join(rvN(s), kv("used", strconv.Itoa(rd.pos)))
+		}()
+		return res
 	case "G.order":
 		return kv("o", showB(secp.Order()))
 	case "G.base":
@@ -572,4 +590,27 @@ func runOps() {
 		fmt.Fprintln(out, execLine(h, in.Text()))
 		out.Flush()
 	}
+}
+
+// scriptReader delivers a fixed byte string in chunks and then fails.
+type scriptReader struct {
+	data  []byte
+	pos   int
+	chunk int
+}
+
+func (s *scriptReader) Read(p []byte) (int, error) {
+	if s.pos >= len(s.data) {
+		return 0, errors.New("scripted entropy source exhausted")
+	}
+	n := len(p)
+	if s.chunk > 0 && n > s.chunk {
+		n = s.chunk
+	}
+	if n > len(s.data)-s.pos {
+		n = len(s.data) - s.pos
+	}
+	copy(p, s.data[s.pos:s.pos+n])
+	s.pos += n
+	return n, nil
 }
